@@ -7,7 +7,7 @@
 (* scenario is also a driver input): 2 instance types whose reserved        *)
 (* offerings carry 2 reservation ids of capacity 0..2 - shared across types *)
 (* and, through the pools' common catalog, across 2 weighted pools -, some  *)
-(* unavailable; NPods pods from 9 archetypes that narrow a NodeClaim (zone, *)
+(* unavailable; NPods pods from 10 archetypes that narrow a NodeClaim (zone, *)
 (* instance type, capacity type), do not fit together, carry a preference   *)
 (* or two OR-terms; reserved-offering mode strict | fallback.               *)
 (*                                                                         *)
@@ -32,7 +32,7 @@ EXTENDS ReservationGuards, Json
 
 CONSTANTS
     NPods,          \* pods per batch
-    PodArchs,       \* archetype ids (subset of 1..9)
+    PodArchs,       \* archetype ids (subset of 1..10)
     Layouts,        \* catalog layouts (subset of 1..3)
     Caps,           \* capacities of r1 / r2 are drawn from this set (subset of 0..2)
     PoolSets,       \* pool-set ids (subset of 1..5)
@@ -97,6 +97,7 @@ Arch(a, name) ==
       [] a = 7 -> [p EXCEPT !.pref = <<[weight |-> 10, exprs |-> <<E("zone", "In", <<"c">>)>>]>>]
       [] a = 8 -> [p EXCEPT !.terms = <<<<E("zone", "In", <<"b">>)>>, <<E("zone", "In", <<"a">>)>>>>]
       [] a = 9 -> [p EXCEPT !.sel = [zone |-> "a"], !.cpu = 900]
+      [] a = 10 -> [p EXCEPT !.cpu = 2500]                            \* fits no instance type
 PodName(i) == "w" \o ToString(i)
 Batches == {s \in [1..NPods -> PodArchs] : \A i \in 1..(NPods - 1) : s[i] <= s[i + 1]}
 Opts(mode) == [preference |-> "Respect", minValues |-> "Strict", reserved |-> mode, workers |-> 1, maxTypes |-> 0, create |-> FALSE]
@@ -147,6 +148,7 @@ FitsType(it, reqs, P) ==
         LET o == it.offerings[i] IN o.available /\ OffCompat(cfg, reqs, o) /\ LeqRes(SumReq(P), OfferingAlloc(it, o))
 
 Orig(k) == PodByKey(cfg, k)
+Solving(k) == phase = "solve" /\ st[k] \in {"pending", "deferred"}
 OrigPods(ks) == {Orig(k) : k \in Range(ks)}
 Batch == {PKey(p) : p \in Range(cfg.pods)}
 Active == {k \in Batch : st[k] \in {"pending", "deferred"}}
@@ -197,8 +199,12 @@ Init ==
 
 Flag(cond, name) == IF cond THEN {name} ELSE {}
 
-OpenNew(k, F) ==
-    LET i == FirstDecisive(F) IN
+FTab(k) == [i \in DOMAIN cfg.pools |-> Fresh(i, k)]
+
+OpenNew(k) ==
+    LET F == FTab(k)
+        i == FirstDecisive(F) IN
+    /\ Solving(k)
     /\ i # 0 /\ F[i].out = "ok"
     /\ LET f == F[i]
            host == "h" \o ToString(Len(claims) + 1)
@@ -213,6 +219,7 @@ PlaceClaim(k, i) ==
     LET c == claims[i]
         r == Narrow(c.reqs, c.its, c.pods, k)
         rs == ResStep(c.held, r.its, r.reqs) IN
+    /\ Solving(k)
     /\ r.ok /\ ~rs.refused
     /\ claims' = [claims EXCEPT ![i] = [c EXCEPT !.pods = Append(c.pods, k), !.reqs = r.reqs, !.its = r.its, !.held = rs.toHold]]
     /\ left' = LeftAfter(c.held, rs.toHold)
@@ -221,7 +228,9 @@ PlaceClaim(k, i) ==
     /\ UNCHANGED <<cfg, eff, phase, preq, tmpl>>
 
 \* strict mode: the pod is deferred with a reserved-offering error (it stays eligible: other claims may release capacity)
-Defer(k, F) ==
+Defer(k) ==
+    LET F == FTab(k) IN
+    /\ Solving(k)
     /\ Strict /\ st[k] = "pending"
     /\ IF W_PoolOrder THEN FirstDecisive(F) # 0 /\ F[FirstDecisive(F)].out = "reserved" ELSE FirstDecisive(F) = 0 /\ AnyRefusal(F)
     /\ st' = [st EXCEPT ![k] = "deferred"]
@@ -230,8 +239,11 @@ Defer(k, F) ==
     /\ UNCHANGED <<cfg, eff, claims, left, phase, preq, tmpl>>
 
 \* relaxation happens only after an ordinary failure, never after a reserved-offering refusal
-Relax(k, F) ==
-    LET e == eff[k] IN
+Relax(k) ==
+    LET e == eff[k]
+        F == FTab(k) IN
+    /\ Solving(k)
+    /\ (Len(e.terms) > 1 \/ e.pref # <<>>)
     /\ FirstDecisive(F) = 0 /\ ~AnyRefusal(F)
     /\ \/ (Len(e.terms) > 1 /\ eff' = [eff EXCEPT ![k] = [e EXCEPT !.terms = Tail(e.terms)]])
        \/ (Len(e.terms) <= 1 /\ e.pref # <<>>
@@ -239,8 +251,11 @@ Relax(k, F) ==
     /\ preq' = [preq EXCEPT ![k] = PodReqs(eff'[k])]
     /\ UNCHANGED <<cfg, claims, left, st, phase, flags, tmpl>>
 
-Fail(k, F) ==
-    /\ FirstDecisive(F) = 0 /\ ~AnyRefusal(F) /\ Len(eff[k].terms) <= 1 /\ eff[k].pref = <<>>
+Fail(k) ==
+    LET F == FTab(k) IN
+    /\ Solving(k)
+    /\ Len(eff[k].terms) <= 1 /\ eff[k].pref = <<>>
+    /\ FirstDecisive(F) = 0 /\ ~AnyRefusal(F)
     /\ st' = [st EXCEPT ![k] = "failed"]
     /\ UNCHANGED <<cfg, eff, claims, left, phase, flags, preq, tmpl>>
 
@@ -256,14 +271,11 @@ Finalize ==
     /\ UNCHANGED <<cfg, eff, left, st, flags, preq, tmpl>>
 
 Next ==
-    \/ /\ phase = "solve"
-       /\ \E k \in Active :
-            LET F == [i \in DOMAIN cfg.pools |-> Fresh(i, k)] IN
-            \/ OpenNew(k, F)
-            \/ \E i \in DOMAIN claims : PlaceClaim(k, i)
-            \/ Defer(k, F)
-            \/ Relax(k, F)
-            \/ Fail(k, F)
+    \/ \E k \in Batch : OpenNew(k)
+    \/ \E k \in Batch : \E i \in DOMAIN claims : PlaceClaim(k, i)
+    \/ \E k \in Batch : Defer(k)
+    \/ \E k \in Batch : Relax(k)
+    \/ \E k \in Batch : Fail(k)
     \/ Finalize
 Spec == Init /\ [][Next]_vars
 
